@@ -8,6 +8,71 @@ import (
 	"unsafe"
 )
 
+const (
+	vpAbA1        = iota // Acquire: before the session pointer is loaded
+	vpAbA2               // Acquire: before the live count is incremented
+	vpAbR1               // Release: before the live count is decremented
+	vpAbR2               // Release: before the closed latch is taken
+	vpAbR3               // Release: before the session is queued
+	vpAbR4               // Release: before the destructor try-lock
+	vpAbR5               // Release: before the try-lock is released
+	vpAbC1               // doCleanup: before SeekFirst
+	vpAbC2               // doCleanup: before the seqno check
+	vpAbC3               // doCleanup: destructor called, before the queue node is deleted
+	vpAbC4               // doCleanup: end of loop body, before Next
+	vpAbF0               // FlushSession: before Lock
+	vpAbF1               // FlushSession: lock held, before the session swap
+	vpAbF2               // FlushSession: before the offset is added
+	vpAbF3               // FlushSession: before Unlock
+	vpSlFindStart        // findPath: (re)start at the head
+	vpSlFindNode         // findPath: before loading the successor of curr at a level
+	vpSlHelp             // findPath: before the unlink CAS of a marked node
+	vpSlLevel            // findPath: level recorded, about to descend
+	vpSlPublish          // Insert4: before the level-0 publish CAS
+	vpSlOwnLoad          // Insert4: before loading the node's own link at an upper level
+	vpSlOwnCAS           // Insert4: before fixing the node's own link
+	vpSlPredCAS          // Insert4: before the predecessor CAS at an upper level
+	vpSlMark             // softDelete: before a mark CAS
+	vpSlDelSearch        // deleteNode: marked, before the clean-up search
+	vpSlNewLevel         // NewLevel: before the level CAS
+	vpItNext             // Iterator.Next: before loading the successor
+	vpItHelp             // Iterator.Next: current node marked, before helping
+	vpItRefresh          // Iterator.Refresh
+)
+
+// Exported names of the yield points for harnesses.
+const (
+	VPAbA1        = vpAbA1
+	VPAbA2        = vpAbA2
+	VPAbR1        = vpAbR1
+	VPAbR2        = vpAbR2
+	VPAbR3        = vpAbR3
+	VPAbR4        = vpAbR4
+	VPAbR5        = vpAbR5
+	VPAbC1        = vpAbC1
+	VPAbC2        = vpAbC2
+	VPAbC3        = vpAbC3
+	VPAbC4        = vpAbC4
+	VPAbF0        = vpAbF0
+	VPAbF1        = vpAbF1
+	VPAbF2        = vpAbF2
+	VPAbF3        = vpAbF3
+	VPSlFindStart = vpSlFindStart
+	VPSlFindNode  = vpSlFindNode
+	VPSlHelp      = vpSlHelp
+	VPSlLevel     = vpSlLevel
+	VPSlPublish   = vpSlPublish
+	VPSlOwnLoad   = vpSlOwnLoad
+	VPSlOwnCAS    = vpSlOwnCAS
+	VPSlPredCAS   = vpSlPredCAS
+	VPSlMark      = vpSlMark
+	VPSlDelSearch = vpSlDelSearch
+	VPSlNewLevel  = vpSlNewLevel
+	VPItNext      = vpItNext
+	VPItHelp      = vpItHelp
+	VPItRefresh   = vpItRefresh
+)
+
 // VerifHook is called at every yield point when non-nil. A hook may block
 // (deterministic scheduling by a test harness) and may log (trace recording).
 // Set it before the structures under test are used.
